@@ -1,5 +1,6 @@
 import CentrifugeVerif.Proofs.Recovery
 import CentrifugeVerif.Proofs.RecoveryHub
+import CentrifugeVerif.Proofs.RecoveryBuffered
 /-!
 # C02 — stream recovery is exact or explicitly refused
 
@@ -105,6 +106,110 @@ theorem recovered_pubs_exact (limit : Nat) (s : RStream) (hi : s.Inv) (req : Req
   rw [streamSubscribe_spec limit s hi req hoff pass, if_pos hc]
   rfl
 
+/-- **recovered_pubs_exact_buffered.**  Exactness with traffic during the subscribe.  `news` are the
+publications made after the history read (offsets `top+1, top+2, …`); the subscriber's buffer holds
+copies (`toM`: placeholders for filtered ones) of publications of the epoch — the fresh ones, all of
+them (`hnew`), and possibly late copies of older ones (`hbuf`).  Then the subscribe either ends with
+insufficient state (the merge found a gap, e.g. a late copy far below the recovered range), or, when
+the position is recoverable, reports `recovered = true` with **exactly** the epoch's publications after
+the requested offset up to the *new* top, minus filtered ones, each once, in order — the stale copies
+at or below the requested offset are not delivered again (`dropStale`). -/
+theorem recovered_pubs_exact_buffered (limit : Nat) (s : RStream) (hi : s.Inv) (req : Req)
+    (hoff : req.offset < U64) (pass : Pub → Bool) (news : List Pub) (buffered : List MPub)
+    (hnews : offs news = List.range' (s.top + 1) news.length)
+    (hbuf : ∀ b ∈ buffered, ∃ p ∈ s.log ++ news, b = toM pass p)
+    (hnew : ∀ p ∈ news, toM pass p ∈ buffered)
+    (hc : epochOK s req.epoch ∧ req.offset ≤ s.top ∧ gapRetained s req.offset ∧ ¬ truncated limit s req.offset) :
+    streamSubscribe limit s req pass buffered = .insufficient ∨
+    ((streamSubscribe limit s req pass buffered).recovered = true ∧
+     (streamSubscribe limit s req pass buffered).pubs =
+       (((s.log ++ news).filter (fun p => decide (req.offset < p.offset))).filter pass).map toPlain) := by
+  have hcond : streamCond limit s req := ⟨hc.1, hc.2.1, (gap_iff s hi _ hc.2.1).mp hc.2.2.1, hc.2.2.2⟩
+  rw [streamSubscribe_shape limit s hi req hoff pass buffered, if_pos hcond]
+  -- offsets of the whole epoch log after the window
+  have hall : offs (s.log ++ news) = List.range' 1 (s.top + news.length) := by
+    simp only [offs, List.map_append] at hnews ⊢
+    have h1 := hi.logOff
+    simp only [offs] at h1
+    rw [h1, hnews]
+    have := List.range'_append (s := 1) (m := s.top) (n := news.length) (step := 1)
+    simp only [Nat.one_mul] at this
+    rw [Nat.add_comm 1 s.top] at this
+    exact this
+  have hpwAll := pairwise_of_offs hall
+  have hdo : offs (s.log.drop req.offset) = List.range' (1 + req.offset) (s.top - req.offset) :=
+    offs_drop hi.logOff req.offset
+  unfold finish
+  cases hm : merge ((s.log.drop req.offset).map (toM pass)) buffered with
+  | none => exact Or.inl rfl
+  | some lm =>
+    obtain ⟨l, mx⟩ := lm
+    right
+    simp only [Outcome.recovered, Outcome.pubs, Bool.not_false, Bool.and_true, Bool.and_self, if_true, Bool.false_and,
+      Bool.false_eq_true, if_false, true_and]
+    have hsorted := merge_sorted_nodup _ _ l mx hm
+    have hmemL := merge_no_placeholder _ _ l mx hm
+    have hset := merge_set _ _ l mx hm
+    -- every input entry is `toM pass p` for a publication of the epoch
+    have hinput : ∀ y ∈ (s.log.drop req.offset).map (toM pass) ++ buffered, ∃ p ∈ s.log ++ news, y = toM pass p := by
+      intro y hy
+      rcases List.mem_append.mp hy with h1 | h1
+      · obtain ⟨p, hp, rfl⟩ := List.mem_map.mp h1
+        exact ⟨p, List.mem_append_left _ (List.mem_of_mem_drop hp), rfl⟩
+      · exact hbuf y h1
+    -- members of the reply
+    have hmem : ∀ x, x ∈ dropStale req.offset buffered l ↔ x ∈ l ∧ req.offset < x.offset := by
+      intro x
+      unfold dropStale
+      split
+      · rename_i hbe
+        have hb0 : buffered = [] := List.isEmpty_iff.mp hbe
+        constructor
+        · intro hx
+          refine ⟨hx, ?_⟩
+          obtain ⟨_, hxin⟩ := hmemL x hx
+          rw [hb0, List.append_nil] at hxin
+          obtain ⟨p, hp, rfl⟩ := List.mem_map.mp hxin
+          have := (mem_offs hdo p.offset).mp ⟨p, hp, rfl⟩
+          simp only [toM]; omega
+        · intro hx; exact hx.1
+      · simp [List.mem_filter]
+    apply eq_of_sorted_mem_iff
+    · unfold dropStale
+      split
+      · exact hsorted
+      · exact hsorted.sublist List.filter_sublist
+    · rw [List.pairwise_map]
+      exact (hpwAll.sublist (List.filter_sublist.trans List.filter_sublist)).imp (fun h => h)
+    · intro x
+      rw [hmem]
+      simp only [List.mem_map, List.mem_filter, decide_eq_true_eq]
+      constructor
+      · rintro ⟨hxl, hxo⟩
+        obtain ⟨hnf, hxin⟩ := hmemL x hxl
+        obtain ⟨p, hp, rfl⟩ := hinput x hxin
+        have hpp := (toM_filtered pass p).mp hnf
+        exact ⟨p, ⟨⟨hp, by simpa [toM] using hxo⟩, hpp⟩, (toM_pass hpp).symm⟩
+      · rintro ⟨p, ⟨⟨hp, hpo⟩, hpp⟩, rfl⟩
+        refine ⟨?_, by simpa [toPlain] using hpo⟩
+        -- `toM pass p` is among the inputs
+        have hin : toM pass p ∈ (s.log.drop req.offset).map (toM pass) ++ buffered := by
+          rcases List.mem_append.mp hp with h1 | h1
+          · apply List.mem_append_left
+            apply List.mem_map_of_mem
+            rw [log_after s hi]
+            exact List.mem_filter.mpr ⟨h1, by simpa using hpo⟩
+          · exact List.mem_append_right _ (hnew p h1)
+        have hoffIn : p.offset ∈ l.map (·.offset) :=
+          (hset p.offset).mpr ((mem_nfOffsets _ _).mpr ⟨toM pass p, hin, (toM_filtered pass p).mpr hpp, rfl⟩)
+        obtain ⟨y, hy, hyo⟩ := List.mem_map.mp hoffIn
+        obtain ⟨hynf, hyin⟩ := hmemL y hy
+        obtain ⟨q, hq, rfl⟩ := hinput y hyin
+        have hqp : q = p := pw_inj hpwAll hq hp (by simpa [toM] using hyo)
+        subst hqp
+        rw [← toM_pass hpp]
+        exact hy
+
 /-- every delivered publication is a retained one (nothing is invented) -/
 theorem recovered_pubs_retained (limit : Nat) (s : RStream) (hi : s.Inv) (req : Req) (hoff : req.offset < U64)
     (pass : Pub → Bool) (h : (streamSubscribe limit s req pass []).recovered = true) :
@@ -200,6 +305,15 @@ theorem hub_recovered_true_iff_window (h : Hub) (hi : h.HInv) (sp : SubParams) (
   exact recovered_true_iff_buffered _ _ (hinv_access hi 0).2.1 _ hoff _ _
 
 /-! ### Non-vacuity: concrete states satisfying `Inv`, exercising the branches -/
+
+-- `recovered_pubs_exact_buffered` on a concrete instance: one fresh publication (offset 6) and a late
+-- copy of offset 2 (= the requested offset) arrive while the subscribe recovers from 2
+example : streamSubscribe 0 (((((((RStream.new 7).add 1 1 9).add 2 2 9).add 1 3 9).add 1 4 9).add 2 5 9))
+    ⟨2, 7, false⟩ (fun _ => true) [⟨6, false, 6⟩, ⟨2, false, 2⟩] =
+    .reply true [⟨3, false, 3⟩, ⟨4, false, 4⟩, ⟨5, false, 5⟩, ⟨6, false, 6⟩] 2 7 6 true := by decide
+-- a late copy far below the recovered range makes the merge report a gap
+example : streamSubscribe 0 (((((((RStream.new 7).add 1 1 9).add 2 2 9).add 1 3 9).add 1 4 9).add 2 5 9))
+    ⟨3, 7, false⟩ (fun _ => true) [⟨1, false, 1⟩] = .insufficient := by decide
 
 /-- five publications, history size 3: offsets 3,4,5 retained, top 5, epoch 7 -/
 def exS : RStream :=
